@@ -1,4 +1,5 @@
 // vsim: seeded search over plans, crash-isolated workers, determinism gate, minimisation, evidence.
+#include <dirent.h>
 #include "driver.h"
 #include "seams.h"
 #include <algorithm>
@@ -456,6 +457,7 @@ static std::string json_str_list(const std::vector<std::string> &v) {
 }
 
 static std::string g_dump_fp;
+static size_t g_nregress = 0;
 static int cmd_check(const std::string &id, int tier, uint64_t seed, int64_t runs_override, int64_t secs_override, int workers) {
     const PropModule *m = find_module(id);
     if (!m) { fprintf(stderr, "vsim: unknown property %s\n", id.c_str()); return 2; }
@@ -463,6 +465,16 @@ static int cmd_check(const std::string &id, int tier, uint64_t seed, int64_t run
     BatchCfg b; b.m = m; b.tier = tier; b.seed = seed;
     std::vector<Plan> fixed;
     if (m->fixed_plans) { fixed = m->fixed_plans(tier); for (auto &p : fixed) { p.prop = m->id; } }
+    {   // regression corpus: minimised replay files of violations other seeds found and that were then fixed in /repo (regress/<ID>-*.json); run first, every time
+        std::string dir = getenv("VSIM_REGRESS_DIR") ? getenv("VSIM_REGRESS_DIR") : VERIF_DIR + "/regress";
+        std::vector<std::string> names;
+        if (DIR *d = opendir(dir.c_str())) { while (struct dirent *e = readdir(d)) { std::string n = e->d_name; if (n.rfind(std::string(m->id) + "-", 0) == 0 && n.size() > 5 && n.substr(n.size() - 5) == ".json") { names.push_back(n); } } closedir(d); }
+        std::sort(names.begin(), names.end());
+        std::vector<Plan> reg;
+        for (auto &n : names) { std::string txt; Plan p; if (read_file(dir + "/" + n, txt) && Plan::parse(txt, p, nullptr, nullptr) && p.prop == m->id) { reg.push_back(p); } }
+        g_nregress = reg.size();
+        fixed.insert(fixed.begin(), reg.begin(), reg.end());
+    }
     b.nfixed = fixed.size();
     b.nruns = fixed.size() + (uint64_t) (runs_override >= 0 ? runs_override : (tier ? m->thorough_runs : m->quick_runs));
     double secs = (double) (secs_override >= 0 ? secs_override : (tier ? m->thorough_secs : m->quick_secs));
@@ -552,6 +564,7 @@ static int cmd_check(const std::string &id, int tier, uint64_t seed, int64_t run
     ev << " \"coverage\": {\n  \"evaluations\": " << st.evaluations << ",\n  \"distinct_nontrivial\": " << st.distinct_nontrivial.size()
        << ",\n  \"distinct_fingerprints_all\": " << st.distinct_all.size() << ",\n  \"nontrivial_runs\": " << st.nontrivial
        << ",\n  \"rule\": \"" << json_escape(m->rule) << "\",\n";
+    if (g_nregress) { ev << "  \"regression_replays_rerun\": " << g_nregress << ",\n"; }
     if (m->exhaustive_fixed && fixed.size()) { ev << "  \"fixed_plans_enumerated\": " << fixed.size() << ",\n"; }
     ev << "  \"samples\": [";
     for (size_t i = 0; i < st.sample_plans.size(); i++) { ev << (i ? ",\n   " : "\n   ") << st.sample_plans[i]; }
